@@ -39,6 +39,12 @@ let approx_tokens b = function
   | AInexact (s, e, r) -> let (s, e) = normalize b s e in (s, e, flag_s (Some r))
 
 let fr_s = function FR (bits, fl) -> "ok " ^ hx bits ^ " " ^ flag_s fl
+let is_f32 name = name = "f32"
+(* both refusals, whatever the kind: the kind reported for a float with a negative exponent depends on
+   the f32 log2 estimate (C12), which the model replaces by the exact logarithm *)
+let same_or_both_err want_asis got =
+  if split_ws want_asis = got || (is_err (split_ws want_asis) && is_err got) then "asis=same" else "asis=diff"
+let iapprox_s = function IExact v -> hx v ^ " Exact" | IInexact (v, r) -> hx v ^ " " ^ flag_s (Some r)
 
 let judge op a got =
   let arg i = List.nth a i in
@@ -56,7 +62,9 @@ let judge op a got =
       expect_conv ~extra:(same_asis (conv_s hx asis) got) (conv_s hx (to_prim_spec sg w v)) got
   | "bool" -> expect (join ["ok"; arg 0; arg 0]) got
   | "u2i" -> expect ("ok " ^ arg 0) got
-  | "i2u" -> let v = z (arg 0) in expect_conv (if Zar.sign v < 0 then "err OutOfBounds" else "ok " ^ hx v) got
+  | "i2u" -> let v = z (arg 0) in
+      expect_conv ~extra:(same_asis (conv_s hx (ibig_try_to_ubig v)) got)
+        (if Zar.sign v < 0 then "err OutOfBounds" else "ok " ^ hx v) got
   | "f2u" | "f2i" ->
       let (f, p) = fmt_of_name (arg 0) and bits = z (arg 1) in
       let uns = op = "f2u" in
@@ -102,44 +110,51 @@ let judge op a got =
       let (n, d) = reduce nd in
       let (b, _) = ieee_rne f n d in
       let (n2, d2) = reduce2 nd in
-      let a1 = rat_to_float_fast p n d and a2 = rat_to_float_fast p n2 d2 in
+      let a1 = rat_fast_x p (is_f32 (arg 0)) n d and a2 = rat_fast_x p (is_f32 (arg 0)) n2 d2 in
+      let a1' = rat_to_float_fast p n d in
       let want = "ok " ^ hx b ^ " +-1" in
       (match got with
        | ["ok"; g; "|"; h] ->
            let d1 = Zar.abs (Zar.sub (z g) b) and d2 = Zar.abs (Zar.sub (z h) b) in
            let diff = Zar.max d1 d2 in
-           let fid = Zar.equal (z g) a1 && Zar.equal (z h) a2 in
+           let fid = Zar.equal (z g) a1 && Zar.equal (z h) a2 && Zar.equal a1 a1' in
            if Zar.leq diff one then pass ~extra:((if fid then "asis=same" else "asis=diff") ^ " cls=off" ^ Zar.to_string diff) ()
            else if fid && Zar.leq diff (zi 2) then known "rat_to_float_fast_two_ulps" want
            else fail want
        | _ -> fail want)
   | "r2f" ->
-      let (f, _) = fmt_of_name (arg 0) in
+      let (f, p) = fmt_of_name (arg 0) in
       let (n, d) = reduce (z (arg 1), z (arg 2)) in
+      let asis = conv_s hx (rat_try_x p (is_f32 (arg 0)) n d) in
+      let asis = if asis = conv_s hx (rat_try_to_float p n d) then asis else "model-literals-differ" in
       (match exact_to_float f n d with
-       | Some b -> expect_conv ("ok " ^ hx b) got
-       | None -> expect_conv "err LossOfPrecision" got)
+       | Some b -> expect_conv ~extra:(same_asis asis got) ("ok " ^ hx b) got
+       | None -> expect_conv ~extra:(same_asis asis got) "err LossOfPrecision" got)
   | "f2r" ->
-      let (f, _) = fmt_of_name (arg 0) in
+      let (f, p) = fmt_of_name (arg 0) in
       let want = match decode_spec f (z (arg 1)) with
         | DFin (m, e) -> let (n, d) = reduce (frac_of m e) in join ["ok"; hx n; hx d]
         | _ -> "err OutOfBounds" in
-      expect_conv want got
+      let asis = conv_s (fun (n, d) -> hx n ^ " " ^ hx d) (float_try_to_rat p (z (arg 1))) in
+      expect_conv ~extra:(same_asis asis got) want got
   | "r2u" | "r2i" ->
       let (n, d) = reduce (z (arg 0), z (arg 1)) in
-      expect_conv (conv_s hx (rat_to_int_spec (op = "r2u") n d)) got
+      let asis = conv_s hx (if op = "r2u" then rat_try_to_ubig n d else rat_try_to_ibig n d) in
+      expect_conv ~extra:(same_asis asis got) (conv_s hx (rat_to_int_spec (op = "r2u") n d)) got
   | "r2p" ->
       let (sg, w) = prim (arg 0) in
       let (n, d) = reduce (z (arg 1), z (arg 2)) in
       let want = if Zar.equal d one then conv_s hx (to_prim_spec sg w n) else "err LossOfPrecision" in
-      expect_conv want got
+      expect_conv ~extra:(same_asis (conv_s hx (rat_try_to_prim (zi 64) sg w n d)) got) want got
   | "i2r" | "u2r" -> expect (join ["ok"; arg 0; "1"; "|"; arg 0; "1"]) got
   | "p2r" -> expect (join ["ok"; arg 1; "1"]) got
   | "rtoint" ->
       let (n, d) = reduce (z (arg 0), z (arg 1)) in
       let (t, (fn, fd)) = rat_trunc_spec n d in
       let want = if Zar.sign fn = 0 then join ["ok"; hx t; "Exact"] else let (fn, fd) = reduce (fn, fd) in join ["ok"; hx t; hx fn; hx fd] in
-      expect ~extra:(if Zar.sign fn = 0 then "cls=Exact" else "cls=Inexact") want got
+      let (at, (an, ad)) = rat_to_int_asis n d in
+      let asis = if Zar.sign an = 0 then join ["ok"; hx at; "Exact"] else join ["ok"; hx at; hx an; hx ad] in
+      expect ~extra:(same_asis asis got ^ (if Zar.sign fn = 0 then " cls=Exact" else " cls=Inexact")) want got
   | "rtofl" ->
       let b = z (arg 0) and m = mode_of (arg 1) and p = z (arg 2) in
       (* RBig stores the reduced fraction, Relaxed only removes common factors of two *)
@@ -176,7 +191,11 @@ let judge op a got =
       let b = z (arg 0) in
       let want = if arg 1 = "inf" || arg 1 = "-inf" then "err OutOfBounds"
         else let (n, d) = reduce (frac b (z (arg 1)) (z (arg 2))) in join ["ok"; hx n; hx d] in
-      expect_conv want got
+      let asis =
+        if arg 1 = "inf" || arg 1 = "-inf" then conv_s (fun _ -> "") (fbig_try_to_rbig b true zero zero)
+        else let (s, e) = normalize b (z (arg 1)) (z (arg 2)) in
+          conv_s (fun (n, d) -> hx n ^ " " ^ hx d) (fbig_try_to_rbig b false s e) in
+      expect_conv ~extra:(same_asis asis got) want got
   | "fltof" | "reprtof" ->
       let (f, p) = fmt_of_name (arg 0) in
       let b = z (arg 1) in
@@ -198,6 +217,14 @@ let judge op a got =
           | Err _ -> "panic Undocumented:assertionfailed:lhs.digits()<=self.precision+rhs.digits()" 
           | _ -> "model-undefined" in
         let fid = same_asis asis got in
+        let fid =
+          if Zar.equal b (zi 2) && Zar.sign s <> 0 then begin
+            let (s0, e0) = normalize b s e in
+            let ts = fr_s (two_step p m s0 e0) in
+            let long = Zar.gt (blen (Zar.abs s0)) (Zar.add p.mB one) in
+            let sub = Zar.leq (Zar.add (blen (Zar.abs s0)) e0) (Zar.add f.emin (Zar.sub f.prec one)) in
+            (if ts = asis then fid else "asis=diff") ^ " path=" ^ (if long then "round" else "fits") ^ (if sub then "-subnormal" else "-normal")
+          end else fid in
         if split_ws want = got then pass ~extra:(fid ^ " cls=" ^ wflag) ()
         else if split_ws asis = got then begin
           (* open classes: the result lies in the subnormal range, or a base that is not a power
@@ -213,14 +240,16 @@ let judge op a got =
         end else fail want
       end
   | "fl2f" | "repr2f" ->
-      let (f, _) = fmt_of_name (arg 0) in
+      let (f, p) = fmt_of_name (arg 0) in
       let (sa, ea) = if op = "fl2f" then (arg 2, arg 3) else (arg 1, arg 2) in
       if sa = "inf" || sa = "-inf" then expect_conv "err LossOfPrecision" got
       else
         let (n, d) = frac (zi 2) (z sa) (z ea) in
+        let m = if op = "fl2f" && arg 0 = "f32" then mode_of (arg 1) else MHalfEven in
+        let asis = if Zar.sign (z sa) = 0 then "ok 0" else conv_s hx (fbig2_try_to_float p m (z sa) (z ea)) in
         (match exact_to_float f n d with
-         | Some b -> expect_conv ("ok " ^ hx b) got
-         | None -> expect_conv "err LossOfPrecision" got)
+         | Some b -> expect_conv ~extra:(same_asis asis got) ("ok " ^ hx b) got
+         | None -> expect_conv ~extra:(same_asis asis got) "err LossOfPrecision" got)
   | "f2fl" ->
       let (f, _) = fmt_of_name (arg 0) in
       let (g1, g2) = split_bar got in
@@ -229,7 +258,10 @@ let judge op a got =
            let (s, e) = normalize (zi 2) m e in
            let n1 = (match g1 with ["ok"; s1; e1; pr] -> let (a, b) = normalize (zi 2) (z s1) (z e1) in ["ok"; hx a; hx b; pr] | x -> x) in
            let n2 = (match g2 with ["ok"; s1; e1] -> let (a, b) = normalize (zi 2) (z s1) (z e1) in ["ok"; hx a; hx b] | x -> x) in
-           expect (join ["ok"; hx s; hx e; hx (blen (Zar.abs m)); "|"; "ok"; hx s; hx e]) (n1 @ ["|"] @ n2)
+           let asis = match float_try_to_fbig (snd (fmt_of_name (arg 0))) (z (arg 1)) with
+             | COk ((a, b), pr) -> join ["ok"; hx a; hx b; hx pr; "|"; "ok"; hx a; hx b] | _ -> "err" in
+           expect ~extra:(same_asis asis (n1 @ ["|"] @ n2))
+             (join ["ok"; hx s; hx e; hx (blen (Zar.abs m)); "|"; "ok"; hx s; hx e]) (n1 @ ["|"] @ n2)
        | DInf neg -> let i = if neg then "-inf" else "inf" in expect (join ["ok"; i; "0"; "0"; "|"; "ok"; i; "0"]) got
        | DNan -> expect "err OutOfBounds | err OutOfBounds" got)
   | "fl2i" ->
@@ -242,7 +274,12 @@ let judge op a got =
           if Zar.sign e < 0 then ("err LossOfPrecision", "err LossOfPrecision")
           else let v = Zar.mul s (Zar.pow b (Zar.to_int e)) in
             ("ok " ^ hx v, if Zar.sign v < 0 then "err OutOfBounds" else "ok " ^ hx v) in
-      let v1 = expect_conv w1 g1 and v2 = expect_conv w2 g2 in
+      let (a1, a2) =
+        if arg 1 = "inf" || arg 1 = "-inf" then (conv_s hx (fbig_try_to_ibig b true zero zero), conv_s hx (fbig_try_to_ubig b true zero zero))
+        else let (s, e) = normalize b (z (arg 1)) (z (arg 2)) in
+          (conv_s hx (fbig_try_to_ibig b false s e), conv_s hx (fbig_try_to_ubig b false s e)) in
+      let fid = if split_ws a1 = g1 && split_ws a2 = g2 then "asis=same" else "asis=diff" in
+      let v1 = expect_conv ~extra:fid w1 g1 and v2 = expect_conv ~extra:fid w2 g2 in
       if v1.v = "pass" then v2 else v1
   | "fl2p" ->
       let (sg, w) = prim (arg 0) and b = z (arg 1) in
@@ -250,14 +287,18 @@ let judge op a got =
       else
         let (s, e) = normalize b (z (arg 2)) (z (arg 3)) in
         let want = if Zar.sign e < 0 then "err LossOfPrecision" else conv_s hx (to_prim_spec sg w (Zar.mul s (Zar.pow b (Zar.to_int e)))) in
-        expect_conv want got
+        let asis = conv_s hx (fbig_try_to_prim_x (zi 64) b sg w false s e) in
+        expect_conv ~extra:(same_or_both_err asis got) want got
   | "i2fl" ->
       let b = z (arg 0) and v = z (arg 1) in
       let (s, e) = normalize b v zero in
       (match got with
        | ["ok"; s1; e1; _pr; "|"; s2; e2] ->
            let (a1, b1) = normalize b (z s1) (z e1) and (a2, b2) = normalize b (z s2) (z e2) in
-           if Zar.equal a1 s && Zar.equal b1 e && Zar.equal a2 s && Zar.equal b2 e then pass () else fail (join ["ok"; hx s; hx e])
+           let (ms, me) = int_to_repr b v in
+           let fid = if Zar.equal a1 ms && Zar.equal b1 me && Zar.equal (z s1) ms && Zar.equal (z e1) me && Zar.equal (z s2) ms && Zar.equal (z e2) me
+             then "asis=same" else "asis=diff" in
+           if Zar.equal a1 s && Zar.equal b1 e && Zar.equal a2 s && Zar.equal b2 e then pass ~nt:true ~extra:fid () else fail (join ["ok"; hx s; hx e])
        | _ -> fail (join ["ok"; hx s; hx e]))
   | "fltoint" ->
       let b = z (arg 0) and m = mode_of (arg 1) in
@@ -266,7 +307,10 @@ let judge op a got =
       let (r, fl) = int_round_spec m n d in
       let (t, tf) = int_round_spec MZero n d in
       let tflag = match tf with None -> "Exact" | Some _ -> "NoOp" in
-      expect ~extra:("cls=" ^ flag_s fl) (join ["ok"; hx r; flag_s fl; "|"; hx t; tflag]) got
+      let asis = match to_int_x b m (z (arg 2)) s e with
+        | Ok ia -> join ["ok"; iapprox_s ia; "|"; iapprox_s (repr_to_int_x b s e)]
+        | _ -> "panic" in
+      expect ~extra:(same_asis asis got ^ " cls=" ^ flag_s fl) (join ["ok"; hx r; flag_s fl; "|"; hx t; tflag]) got
   | _ -> skip "unknown-op"
 
 let () = serve judge
